@@ -969,3 +969,37 @@ func vspecCWM(src []byte) int { return vspecCW(src) + 2 + vspecBE16(src, vspecCW
 //@   ensures[C03:wire] err == nil && old(m.dirty) ==> dst[0] == m.mtypeflags[0] && Type(m.mtypeflags[0]>>4) == CONNECT && forall(0, vspecVarintLen(int(m.remlen)), func(k int) bool { return int(dst[1+k]) == vspecVarintByte(int(m.remlen), k) })
 //@   ensures[C03:accept] old(m.dirty) && Type(m.mtypeflags[0]>>4) == CONNECT && haskey(SupportedVersions, m.version) && len(dst) >= 5+vdefConnBody(m) ==> err == nil
 //@   modifies elems(dst, 0, n), m.remlen, m.dirty
+
+// ---------------------------------------------------------------- interface-level contracts of message.Message
+//
+// Assumed at call sites in other packages (trusted). Every implementation of Message in this code base is a pointer
+// to a struct whose first field is (transitively) `header`, so header fields are reached through the interface value.
+// Len/Encode are specified abstractly here; their per-type behaviour is what C03 proves. Not covered by this frame:
+// Encode writing a freshly assigned packet id in place into an existing 2-byte id buffer that holds 0.
+
+//@ iface Message.Type
+//@   trusted
+//@   pure
+//@   requires len(ifaceval(self, *header).mtypeflags) == 1
+//@   ensures result == Type(ifaceval(self, *header).mtypeflags[0] >> 4)
+
+//@ iface Message.PacketID
+//@   trusted
+//@   pure
+//@   ensures int(result) == vspecPacketID(ifaceval(self, *header).packetID)
+
+//@ iface Message.Name
+//@   trusted
+//@   pure
+
+//@ iface Message.Len
+//@   trusted
+//@   ensures 0 <= result && result <= 268435460
+//@   modifies heap("F.message.header.remlen"), heap("F.message.header.dirty")
+
+//@ iface Message.Encode
+//@   trusted
+//@   results n, err
+//@   flag args self, dst
+//@   ensures err == nil ==> 0 <= n && n <= len(dst)
+//@   modifies elems(dst), heap("F.message.header.remlen"), heap("F.message.header.dirty"), heap("F.message.header.packetID"), gPacketID
